@@ -342,7 +342,7 @@ static void do_case(int op, int arg)
 		if (arg < 0 || arg >= len) {
 			cls = "refuse";
 			if (ret != -XMP_ERROR_INVALID)
-				FAIL(arg < 0 ? "refuse:negative" : "refuse:set_position", "set_position(%d) len=%d returned %d", arg, len, ret);
+				FAIL(arg < 0 ? "refuse:negative" : "refuse:xmp_set_position", "set_position(%d) len=%d returned %d", arg, len, ret);
 			if (strcmp(pre, post))
 				FAIL("refuse:state-changed", "set_position(%d) refused but state changed", arg);
 		} else if (valid_ord(arg) && p->sequence_control[arg] < m->num_sequences) {
@@ -350,10 +350,10 @@ static void do_case(int op, int arg)
 			int same = arg == pre_ord && arg != 0;
 			cls = same ? "set_position:same-order" : (q != pre_seq ? "set_position:other-sequence" : "set_position:landing");
 			if (ret != arg)
-				FAIL(arg == 0 && ret == -1 ? "ret:xmp_set_position(0)=-1" : "set_position:ret",
+				FAIL(arg == 0 && ret == -1 ? "ret:xmp_set_position(0)=-1" : "ret:xmp_set_position",
 				     "set_position(%d) returned %d", arg, ret);
 			if (rc != 0 || fi.pos != arg || fi.row != 0 || fi.frame != 0 || fi.sequence != q || fi.pattern != mod->xxo[arg])
-				FAIL(same ? "set_position:same-order" : (arg < m->seq_data[q].entry_point ? "set_position:before-entry" : "set_position:landing"),
+				FAIL(same ? "land:xmp_set_position(current-order)" : (arg < m->seq_data[q].entry_point ? "land:xmp_set_position(before-entry)" : "land:xmp_set_position"),
 				     "set_position(%d) seq %d: frame rc=%d pos=%d row=%d frame=%d seq=%d (was ord=%d pos=%d row/frame in pre)",
 				     arg, q, rc, fi.pos, fi.row, fi.frame, fi.sequence, pre_ord, pre_pos);
 		}
@@ -365,15 +365,15 @@ static void do_case(int op, int arg)
 		if (arg < 0 || arg >= nr) {
 			cls = "refuse";
 			if (ret != -XMP_ERROR_INVALID)
-				FAIL(arg < 0 ? "refuse:negative" : "refuse:set_row", "set_row(%d) rows=%d returned %d", arg, nr, ret);
+				FAIL(arg < 0 ? "refuse:negative" : "refuse:xmp_set_row", "set_row(%d) rows=%d returned %d", arg, nr, ret);
 			if (strcmp(pre, post))
 				FAIL("refuse:state-changed", "set_row(%d) refused but state changed", arg);
 		} else if (pre_pos != -2) {
 			cls = pending ? "set_row:pending" : "set_row:landing";
 			if (ret != arg)
-				FAIL("set_row:ret", "set_row(%d) returned %d", arg, ret);
+				FAIL("ret:xmp_set_row", "set_row(%d) returned %d", arg, ret);
 			if (rc != 0 || fi.row != arg || fi.frame != 0 || fi.pos != cp)
-				FAIL("set_row:landing", "set_row(%d) at pos %d: frame rc=%d pos=%d row=%d frame=%d", arg, cp, rc,
+				FAIL("land:xmp_set_row", "set_row(%d) at pos %d: frame rc=%d pos=%d row=%d frame=%d", arg, cp, rc,
 				     fi.pos, fi.row, fi.frame);
 		}
 		break; }
@@ -402,7 +402,7 @@ static void do_case(int op, int arg)
 			}
 			if (t >= 0 && t < len && (fwd || cur > start) && member(t, pre_seq)) {
 				cls = fwd ? "next:inside" : "prev:inside";
-				snprintf(sig, sizeof sig, "%s:landing", nm);
+				snprintf(sig, sizeof sig, "land:xmp_%s", nm);
 				if (ret != t || rc != 0 || fi.pos != t || fi.row != 0 || fi.frame != 0 || fi.sequence != pre_seq)
 					FAIL(sig, "%s from %d: expected order %d, ret=%d frame rc=%d pos=%d row=%d frame=%d seq=%d", nm, cur,
 					     t, ret, rc, fi.pos, fi.row, fi.frame, fi.sequence);
@@ -410,17 +410,17 @@ static void do_case(int op, int arg)
 				/* cur is the last (first) order of the sequence: stay put, i.e. either the call
 				 * changes nothing or the next frame is still in order cur */
 				cls = fwd ? (cur + 1 >= len ? "next:list-end" : "next:end") : "prev:end";
-				snprintf(sig, sizeof sig, "%s:sequence-end", nm);
+				snprintf(sig, sizeof sig, "end:xmp_%s", nm);
 				if (fwd && cur + 1 >= len) {
 					if (strcmp(pre, post) || ret != cur)
-						FAIL("next_position:list-end", "next_position at the last order %d returned %d or changed state", cur, ret);
+						FAIL("list-end:xmp_next_position", "next_position at the last order %d returned %d or changed state", cur, ret);
 				} else if (strcmp(pre, post) && (rc != 0 || fi.pos != cur || fi.sequence != pre_seq))
 					FAIL(sig, "%s from %d (end of sequence %d, neighbour %d): frame rc=%d pos=%d row=%d seq=%d", nm, cur, pre_seq,
 					     t, rc, fi.pos, fi.row, fi.sequence);
 			} else {
 				/* neighbour is not an order of this sequence but the sequence continues further on */
 				cls = fwd ? "next:gap" : "prev:gap";
-				snprintf(sig, sizeof sig, "%s:leaves-sequence", nm);
+				snprintf(sig, sizeof sig, "leave:xmp_%s", nm);
 				if (strcmp(pre, post) && (rc != 0 || !member(fi.pos, pre_seq) || fi.sequence != pre_seq))
 					FAIL(sig, "%s from %d: landed on %d (seq id %d) outside sequence %d", nm, cur, fi.pos,
 					     p->sequence_control[fi.pos], pre_seq);
@@ -438,37 +438,45 @@ static void do_case(int op, int arg)
 			int same = cand == pre_ord && cand != 0;
 			cls = same ? "seek:same-order" : "seek:landing";
 			if (ret != cand)
-				FAIL("seek_time:ret", "seek_time(%d) seq %d: expected %d returned %d", arg, pre_seq, cand, ret);
+				FAIL("ret:xmp_seek_time", "seek_time(%d) seq %d: expected %d returned %d", arg, pre_seq, cand, ret);
 			if (!same && (rc != 0 || fi.pos != cand || fi.sequence != pre_seq))
-				FAIL("seek_time:landing", "seek_time(%d) seq %d: expected order %d, frame rc=%d pos=%d seq=%d", arg, pre_seq,
+				FAIL("land:xmp_seek_time", "seek_time(%d) seq %d: expected order %d, frame rc=%d pos=%d seq=%d", arg, pre_seq,
 				     cand, rc, fi.pos, fi.sequence);
 			if (!same && (fi.row != 0 || fi.frame != 0))
-				FAIL("seek_time:row", "seek_time(%d): order %d entered at row %d frame %d", arg, cand, fi.row, fi.frame);
+				FAIL("row:xmp_seek_time", "seek_time(%d): order %d entered at row %d frame %d", arg, cand, fi.row, fi.frame);
 		} else if (cand < 0) {
+			/* nothing entered by time t: the code falls back to xmp_set_position(0), i.e. the first
+			 * order that is not a skip marker, in the sequence of order 0 */
+			int t = 0;
+			while (marker && t < len && mod->xxo[t] == 0xfe)
+				t++;
 			cls = "seek:fallback";
-			if (ret != 0)
-				FAIL("seek_time:fallback", "seek_time(%d) with no candidate returned %d", arg, ret);
+			if (valid_ord(t) && p->sequence_control[0] < m->num_sequences && !(t == pre_ord && t != 0)) {
+				if (ret != t || rc != 0 || fi.pos != t || fi.row != 0 || fi.frame != 0)
+					FAIL("fallback:xmp_seek_time", "seek_time(%d) with no candidate: expected order %d, returned %d, frame rc=%d pos=%d row=%d",
+					     arg, t, ret, rc, fi.pos, fi.row);
+			}
 		}
 		break; }
 	case OP_RESTART: {
 		int start = m->seq_data[pre_seq].entry_point, t = start;
 		while (t < len && !valid_ord(t) && !(marker && mod->xxo[t] == 0xff))
 			t++;
-		if (p->loop_count != 0 && 0) {
-		}
 		if (valid_ord(t)) {
 			cls = "restart";
 			if (rc != 0 || fi.pos != t || fi.row != 0 || fi.frame != 0 || fi.sequence != pre_seq)
-				FAIL("restart:landing", "restart in sequence %d (entry %d): frame rc=%d pos=%d row=%d frame=%d seq=%d", pre_seq,
+				FAIL("land:xmp_restart_module", "restart in sequence %d (entry %d): frame rc=%d pos=%d row=%d frame=%d seq=%d", pre_seq,
 				     start, rc, fi.pos, fi.row, fi.frame, fi.sequence);
-			if (fi.loop_count != 0)
-				FAIL("restart:loop-count", "restart: loop count %d in the first frame", fi.loop_count);
+			/* loop count 0, except for the modules whose very first row is the recorded end point with a
+			 * wrapped-around visit count of 0 (storlek_11.it): a fresh xmp_start_player reports 1 there too */
+			if (fi.loop_count != 0 && !(p->scan[pre_seq].num == 0 && t == p->scan[pre_seq].ord && 0 == p->scan[pre_seq].row))
+				FAIL("loop:xmp_restart_module", "restart: loop count %d in the first frame", fi.loop_count);
 		}
 		break; }
 	case OP_STOP:
 		cls = "stop";
 		if (rc != -XMP_END)
-			FAIL("stop:not-end", "frame after xmp_stop_module returned %d", rc);
+			FAIL("end:xmp_stop_module", "frame after xmp_stop_module returned %d", rc);
 		break;
 	}
 	if (!failed)
@@ -586,6 +594,12 @@ static int open_module(const char *path)
 		fprintf(O, "skip %s %d\n", path, rc);
 		if (!is_synth(path) || rc == -2)
 			xmp_free_context(X);
+		return -1;
+	}
+	if (C->m.mod.len <= 0) {	/* no order to position on */
+		fprintf(O, "skip %s empty\n", path);
+		xmp_release_module(X);
+		xmp_free_context(X);
 		return -1;
 	}
 	if (xmp_start_player(X, 8000, XMP_FORMAT_MONO | XMP_FORMAT_8BIT) < 0) {
